@@ -799,3 +799,43 @@ func VerifC15RuntimeNil() {
 		vassert(!strings.Contains(rerr.Error(), "panic"), "reported as an ordinary error, not a recovered panic")
 	}
 }
+
+type c15PIn struct {
+	A int
+	B string
+}
+
+// A pass-through node with field-mapped inputs, typed by the node that follows it (whose input and output types
+// differ): the mapped values are assembled into the type the pass-through carries and reach the successor unchanged,
+// in non-streaming and streaming execution.
+func VerifC15PassthroughMapped() {
+	ctx := context.Background()
+	vcfg("fifo", 1)
+	vcfg("selectfirst", 1)
+	x := vsymInt("x")
+	var got c15PIn
+	wf := NewWorkflow[map[string]any, string]()
+	wf.AddPassthroughNode("p").AddInput(START, MapFields("x", "A"), MapFields("s", "B"))
+	wf.AddLambdaNode("c", InvokableLambda(func(ctx context.Context, in c15PIn) (string, error) {
+		got = in
+		return in.B, nil
+	})).AddInput("p")
+	wf.End().AddInput("c")
+	r, err := wf.Compile(ctx)
+	vassert(err == nil, "workflow with a field-mapped pass-through compiles")
+	in := map[string]any{"x": x, "s": "t"}
+	var out string
+	var rerr error
+	if vchoose("stream", 2) == 1 {
+		sr, e := r.Stream(ctx, in)
+		rerr = e
+		if e == nil {
+			out, rerr = sr.Recv()
+			sr.Close()
+		}
+	} else {
+		out, rerr = r.Invoke(ctx, in)
+	}
+	vassert(rerr == nil, "the run succeeds")
+	vassert(got.A == x && got.B == "t" && out == "t", "the successor of the pass-through receives exactly the mapped values")
+}
